@@ -20,7 +20,7 @@ PLAN = dict(
           "from a complete text with the same kinds of values in random line order; (c) black-box probes "
           "base-PREFIXnbN matched against base{>=,>,<=,<}PREFIXnb{N-1,N,N+1} through Pattern, which pins the "
           "revision the matcher uses to the one pkgrevision() reports. Non-trivial = >= 2 dashes or >= 2 'nb' "
-          "in the name, and every probe; distinct = distinct names by 64-bit fingerprint. Later additions: a parsed entry is renamed with set_pkgname (also on a clone) and the accessors must follow; probe prefixes of exactly k components (length sweep); bounds related to the version by text (without the revision, with .0 / _ in front of it, with a second revision)."),
+          "in the name, and every probe; distinct = distinct names by 64-bit fingerprint. Later additions: a parsed entry is renamed with set_pkgname (also on a clone) and the accessors must follow; probe prefixes of exactly k components (length sweep); bounds related to the version by text (without the revision, with .0 / _ in front of it, with a second revision). Round 7: revision probes whose prefix holds a number beyond 64 bits, repeated character for character in the bounds."),
     assumptions=[
         "the reference split / revision reader in harness/src/oracle/misc.rs is a faithful reading of the statement",
         "probe expectations are restated with the reference dewey model (oracle/dewey.rs); probes on which it disagrees would be dropped (none are)",
